@@ -109,6 +109,9 @@ struct UnitReq {
     /// R24: emit the selected associated fn(s) as free functions (they use no impl generics)
     #[serde(default)]
     hoist: bool,
+    /// emit the item verbatim (only doc comments dropped, visibility widened): used for Kani
+    #[serde(default)]
+    raw: bool,
 }
 
 #[derive(Deserialize)]
@@ -138,6 +141,7 @@ struct UnitOut {
     n_closures: usize,
     n_tries: usize,
     closure_info: Vec<(String, usize, String, String)>,
+    fmt_helpers: Vec<(String, String)>,
     error: Option<String>,
     identity_ok: Option<bool>,
 }
@@ -307,6 +311,7 @@ struct Rewriter<'a> {
     brk_counter: usize,
     synth: Vec<(String, String)>,
     intoiter_params: Vec<String>,
+    fmt_helpers: Vec<(String, String)>,
 }
 
 fn line_of<T: syn::spanned::Spanned>(t: &T) -> usize {
@@ -358,9 +363,67 @@ impl<'a> Rewriter<'a> {
                     }
                 };
                 let rest: Vec<Expr> = it.collect();
-                let fname = syn::Ident::new(&format!("vx_fmt_{}", lit_hash(&lit)), proc_macro2::Span::call_site());
-                self.logr("R3", line, format!("format!({:?}, ..{} args) -> {}", lit, rest.len(), fname));
-                Some(parse_quote!(#fname(#(&#rest),*)))
+                // R3: the literal is parsed into pieces; each `{}` / `{name}` placeholder becomes the
+                // Display text of its argument, so the helper's contract is generated from the literal itself
+                let mut pieces: Vec<(String, Option<(usize, bool)>)> = vec![]; // (literal text before, placeholder arg index + debug?)
+                let mut call_args: Vec<Expr> = rest.clone();
+                let mut cur = String::new();
+                let chars: Vec<char> = lit.chars().collect();
+                let mut i = 0usize;
+                let mut next_pos = 0usize;
+                let mut bad = false;
+                while i < chars.len() {
+                    let c = chars[i];
+                    if c == '{' && i + 1 < chars.len() && chars[i + 1] == '{' { cur.push('{'); i += 2; continue; }
+                    if c == '}' && i + 1 < chars.len() && chars[i + 1] == '}' { cur.push('}'); i += 2; continue; }
+                    if c == '{' {
+                        let mut j = i + 1;
+                        let mut inner = String::new();
+                        while j < chars.len() && chars[j] != '}' { inner.push(chars[j]); j += 1; }
+                        let (name, fmt) = match inner.find(':') { Some(p) => (inner[..p].to_string(), inner[p + 1..].to_string()), None => (inner.clone(), String::new()) };
+                        let debug = !fmt.is_empty();
+                        let idx = if name.is_empty() {
+                            let k = next_pos; next_pos += 1; k
+                        } else if name.chars().all(|ch| ch.is_ascii_digit()) {
+                            bad = true; 0
+                        } else {
+                            let id = syn::Ident::new(&name, proc_macro2::Span::call_site());
+                            call_args.push(parse_quote!(#id));
+                            call_args.len() - 1
+                        };
+                        pieces.push((std::mem::take(&mut cur), Some((idx, debug))));
+                        i = j + 1;
+                        continue;
+                    }
+                    cur.push(c);
+                    i += 1;
+                }
+                pieces.push((cur, None));
+                if bad || next_pos > rest.len() {
+                    self.errors.push(format!("unsupported-construct: format! literal {:?} at line {}", lit, line));
+                    return None;
+                }
+                let hname = format!("vx_fmt_{}", lit_hash(&lit));
+                let fname = syn::Ident::new(&hname, proc_macro2::Span::call_site());
+                // helper text
+                let n = call_args.len();
+                let tps: Vec<String> = (0..n).map(|k| format!("A{}: VxDisplay + ?Sized", k)).collect();
+                let ps: Vec<String> = (0..n).map(|k| format!("a{}: &A{}", k, k)).collect();
+                let mut spec = String::from("Seq::<char>::empty()");
+                for (txt, ph) in &pieces {
+                    if !txt.is_empty() {
+                        spec.push_str(&format!(" + {:?}@", txt));
+                    }
+                    if let Some((idx, debug)) = ph {
+                        if *debug { spec.push_str(&format!(" + a{}.vx_debug()", idx)); } else { spec.push_str(&format!(" + a{}.vx_display()", idx)); }
+                    }
+                }
+                let helper = format!(
+                    "/// format!({:?}, ..): contract generated from the literal (core::fmt semantics assumed)\n#[verifier::external_body]\npub fn {}<{}>({}) -> (r: String)\n    ensures r@ == {},\n{{ unimplemented!() }}",
+                    lit, hname, tps.join(", "), ps.join(", "), spec);
+                self.fmt_helpers.push((hname.clone(), helper));
+                self.logr("R3", line, format!("format!({:?}, ..{} args) -> {}", lit, n, fname));
+                Some(parse_quote!(#fname(#(&#call_args),*)))
             }
             "anyhow" => {
                 self.logr("R4", line, "anyhow!(..) -> vx_anyhow()");
@@ -672,9 +735,14 @@ impl<'a> VisitMut for Rewriter<'a> {
                     let inner_is_ident = match p {
                         syn::Pat::Ident(_) => true,
                         syn::Pat::Type(t) => matches!(&*t.pat, syn::Pat::Ident(_)),
-                        syn::Pat::Wild(_) => true,
                         _ => false,
                     };
+                    if let syn::Pat::Wild(_) = p {
+                        // `_` closure parameters are not accepted by the verifier: give them a name
+                        let v = syn::Ident::new(&format!("vx_p{}", pi), proc_macro2::Span::call_site());
+                        *p = parse_quote!(#v);
+                        continue;
+                    }
                     if !inner_is_ident {
                         let v = syn::Ident::new(&format!("vx_p{}", pi), proc_macro2::Span::call_site());
                         let pat = p.clone();
@@ -694,7 +762,12 @@ impl<'a> VisitMut for Rewriter<'a> {
                 let nsyn = self.synth.len();
                 let uid = self.uid.clone();
                 let mut new_synth: Vec<(String, String)> = vec![];
+                let fn_taking = ["map", "map_err", "and_then", "or_else", "unwrap_or_else", "then", "filter_map", "flat_map", "for_each", "map_or_else", "ok_or_else"];
+                let takes_fn = fn_taking.contains(&mc.method.to_string().as_str());
                 for (ai, a) in mc.args.iter_mut().enumerate() {
+                    if !takes_fn {
+                        break;
+                    }
                     if let Expr::Path(p) = a {
                         let segs: Vec<String> = p.path.segments.iter().map(|s| s.ident.to_string()).collect();
                         if segs.len() >= 2 && p.qself.is_none()
@@ -1005,7 +1078,20 @@ fn process_fn(
         let mut new_lts: Vec<syn::Lifetime> = vec![];
         for arg in sig.inputs.iter_mut() {
             if let syn::FnArg::Typed(pt) = arg {
-                if let syn::Type::ImplTrait(it) = &*pt.ty {
+                // `&mut impl Trait` / `&impl Trait`: the impl type sits under a reference
+                let mut under_ref: Option<(bool, Option<syn::Lifetime>)> = None;
+                let mut it_opt: Option<syn::TypeImplTrait> = None;
+                match &*pt.ty {
+                    syn::Type::ImplTrait(it) => it_opt = Some(it.clone()),
+                    syn::Type::Reference(r) => {
+                        if let syn::Type::ImplTrait(it) = &*r.elem {
+                            it_opt = Some(it.clone());
+                            under_ref = Some((r.mutability.is_some(), r.lifetime.clone()));
+                        }
+                    }
+                    _ => {}
+                }
+                if let Some(it) = &it_opt {
                     let id = syn::Ident::new(&format!("VxI{}", k), proc_macro2::Span::call_site());
                     k += 1;
                     // elided lifetimes inside the bounds become fresh named lifetime parameters
@@ -1034,7 +1120,11 @@ fn process_fn(
                     if norm(&bounds.to_token_stream()).contains("IntoIterator") {
                         intoiter_params.push(pat_name(&pt.pat));
                     }
-                    pt.ty = Box::new(parse_quote!(#id));
+                    pt.ty = match &under_ref {
+                        None => Box::new(parse_quote!(#id)),
+                        Some((true, lt)) => Box::new(parse_quote!(& #lt mut #id)),
+                        Some((false, lt)) => Box::new(parse_quote!(& #lt #id)),
+                    };
                 }
             }
         }
@@ -1064,6 +1154,7 @@ fn process_fn(
             brk_counter: 0,
             synth: vec![],
             intoiter_params: vec![],
+            fmt_helpers: vec![],
         };
         let _ = (&rw.fn_marker, rw.brk_counter);
         rw.intoiter_params = intoiter_params.clone();
@@ -1080,6 +1171,7 @@ fn process_fn(
             }
         }
         out.rewrites.extend(rw.log);
+        out.fmt_helpers.extend(rw.fmt_helpers.clone());
         for (m, t) in rw.synth {
             subs.push(("loop".into(), m, t));
         }
@@ -1561,6 +1653,18 @@ fn process_unit(job: &Job, ctx: &Ctx, u: &UnitReq, uidx: usize, vac: bool) -> Un
             out.src_line_start = line_of(it);
             out.src_line_end = syn::spanned::Spanned::span(it).end().line;
             let mut it = it.clone();
+            if u.raw {
+                if let Item::Fn(f) = &mut it {
+                    f.attrs.retain(|a| !a.path().is_ident("doc"));
+                    f.vis = parse_quote!(pub(crate));
+                }
+                out.rewrites.push(RewriteLog { rule: "R0".into(), line: out.src_line_start, detail: "item emitted verbatim (visibility pub(crate))".into() });
+                match rustfmt(&it.to_token_stream().to_string()) {
+                    Ok(t) => out.text = t,
+                    Err(e) => out.error = Some(format!("unsupported-construct: {}", e)),
+                }
+                return out;
+            }
             if let Item::Fn(f) = &mut it {
                 let spec = u.fns.get(&f.sig.ident.to_string()).or_else(|| u.fns.values().next()).unwrap_or(&default_spec);
                 let vspec;
@@ -1605,6 +1709,7 @@ fn process_unit(job: &Job, ctx: &Ctx, u: &UnitReq, uidx: usize, vac: bool) -> Un
                     brk_counter: 0,
             synth: vec![],
             intoiter_params: vec![],
+            fmt_helpers: vec![],
                 };
                 match &mut it {
                     Item::Struct(s) => { rw.visit_fields_mut(&mut s.fields); rw.visit_generics_mut(&mut s.generics); }
@@ -1742,7 +1847,7 @@ fn process_unit(job: &Job, ctx: &Ctx, u: &UnitReq, uidx: usize, vac: bool) -> Un
                                         match syn::parse_str::<syn::ItemFn>(&format!("pub {} {{ }}", ol.header)) {
                                             Ok(mut hf) => {
                                                 let hspec = u.fns.get(&ol.name).unwrap_or(&default_spec);
-                                                if hspec.tail_assume.is_some() {
+                                                if hspec.tail_assume.is_some() && !hspec.external_body {
                                                     let rn = syn::Ident::new(hspec.ret.as_deref().unwrap_or("r"), proc_macro2::Span::call_site());
                                                     let mk = syn::Ident::new(&format!("__vxhint_u{}f{}o{}_ta", uidx, fidx, oi), proc_macro2::Span::call_site());
                                                     let rty: syn::Type = match &hf.sig.output {
@@ -1812,6 +1917,7 @@ fn process_unit(job: &Job, ctx: &Ctx, u: &UnitReq, uidx: usize, vac: bool) -> Un
                 brk_counter: 0,
             synth: vec![],
             intoiter_params: vec![],
+            fmt_helpers: vec![],
             };
             rw.visit_generics_mut(&mut im.generics);
             rw.visit_type_mut(&mut im.self_ty);
